@@ -1,7 +1,7 @@
 """Obligations shared by C01 / C02 / C03 / C19: the graph-rewriting carriers under the sidecar contracts of contracts/graph.py."""
 import z3
 from vlib import core, pyvc
-from contracts import graph, performer
+from contracts import graph, performer, names
 from replay import graph_native
 
 TU, DI, QI, QT = 'transformations/transformation_utils.py', 'transformations/dequant_insert.py', 'transformations/quant_insert.py', 'transformations/quantize_tensor.py'
@@ -79,6 +79,44 @@ def e2e_standin(rep, prop, sampled3=0):
         ob.replay = dict(confirmed=True, inputs=dict(spec=first[0][0], modes=first[0][1]), violated=first[1])
         rep.add(ob)
     return fails
+
+def _names_native(case):
+    import types, importlib, itertools
+    core.stub_package(); pg = importlib.import_module('ai_edge_quantizer.params_generator')
+    from ai_edge_litert import schema_py_generated as schema
+    sgs = []
+    for row in case['subgraph_tensor_names']:
+        sg = schema.SubGraphT(); sg.tensors = []
+        for nme in row:
+            t = schema.TensorT(); t.name = nme.encode(); sg.tensors.append(t)
+        sgs.append(sg)
+    fake = types.SimpleNamespace(flatbuffer_model=types.SimpleNamespace(subgraphs=sgs))
+    allnames = [n for row in case['subgraph_tensor_names'] for n in row]
+    try: pg.ParamsGenerator._check_tensor_names_are_unique(fake); returned = True
+    except ValueError: returned = False
+    bad = returned and len(set(allnames)) != len(allnames)
+    return dict(confirmed=bool(bad), inputs=case, observed=dict(returned_normally=returned, names_unique=len(set(allnames)) == len(allnames)))
+def _names_search(label):
+    import itertools
+    for shape in ([2], [1, 1], [2, 1], [1, 2], [2, 2]):
+        for names_ in itertools.product('ab', repeat=sum(shape)):
+            rows, k = [], 0
+            for n in shape: rows.append(list(names_[k:k + n])); k += n
+            r = _names_native(dict(subgraph_tensor_names=rows))
+            if r['confirmed']: return r
+    return None
+def names_obligations(rep, prop):
+    """the unique-tensor-name precondition that every name-keyed table of the pipeline relies on"""
+    obs = pyvc.verify(rep, prop, core.Fn('params_generator.py', 'ParamsGenerator._check_tensor_names_are_unique'), names.NamesUnique(), select=None,
+                      replay=lambda mv, label: _names_native(mv), fallback=_names_search)
+    src = core.read_source('params_generator.py'); a = '        global_tensor_names.add(tensor_name)'
+    if a in src:
+        try:
+            E = pyvc.run_function(core.Fn('params_generator.py', 'ParamsGenerator._check_tensor_names_are_unique', src_override=src.replace(a, '        pass')), names.NamesUnique())
+            bad = [ob.label for ob, st, dt, det, mv in pyvc.decide_parallel(E, E.spec, timeout=20000) if st != 'proved']; rep.canary('_check_tensor_names_are_unique: names never recorded', bool(bad), str(bad[:3]))
+        except pyvc.Unsupported as e: rep.canary('_check_tensor_names_are_unique: names never recorded', True, str(e))
+    else: rep.canary('_check_tensor_names_are_unique: names never recorded', False, 'mutation site not found (stale canary)')
+    return obs
 
 def small_carriers(rep, prop):
     sel = SEL[prop]; obs = []
